@@ -1,6 +1,6 @@
 (* Properties/C14.v — C14: a checkpoint restores exactly the state at its log index.
    Only the property theorems (closed by [exact]) and non-vacuity examples. *)
-From ZV Require Import Common.Bytes Ckpt.Consts Ckpt.Model Ckpt.Proofs Ckpt.ProofsName Ckpt.ProofsValue Ckpt.ProofsPlan Ckpt.ProofsChain Ckpt.ProofsFetch Ckpt.ProofsOrder.
+From ZV Require Import Common.Bytes Ckpt.Consts Ckpt.Model Ckpt.Proofs Ckpt.ProofsName Ckpt.ProofsValue Ckpt.ProofsPlan Ckpt.ProofsChain Ckpt.ProofsFetch Ckpt.ProofsOrder Ckpt.ProofsCrash.
 From Coq Require Import Permutation Sorted.
 Open Scope N_scope.
 
@@ -217,6 +217,87 @@ Theorem C14_release_before_capture_refuted :
     bsched_run (bstart h0) l = Some s' /\ b_view s' <> Some h0.
 Proof. exact release_before_capture_refuted. Qed.
 Print Assumptions C14_release_before_capture_refuted.
+
+(* ---------- (5c) crashes inside a backup, a snapshot transfer, a restore ---------- *)
+
+(* every prefix of the steps of backupLoop / of the transfer of PrepareSnapshot (= the process killed
+   at any moment) leaves the checkpoint directory either refused by isBackupOKInPath or complete:
+   whatever the engine makes of a half written directory (opens_partial), a backup that is accepted
+   restores to the content of a complete checkpoint, never to garbage *)
+Theorem C14_crashed_backup_never_restores_garbage : forall opens_partial garbage v k s,
+  slot_safe s ->
+  let s' := wrun s (firstn k (backup_steps v)) in
+  backup_ok opens_partial s' = true -> exists w, cs_dir s' = DComplete w /\ restored_content garbage s' = w.
+Proof. exact crashed_backup_never_restores_garbage. Qed.
+Print Assumptions C14_crashed_backup_never_restores_garbage.
+
+Theorem C14_crashed_fetch_never_restores_garbage : forall opens_partial garbage v k s,
+  slot_safe s ->
+  let s' := wrun s (firstn k (fetch_steps v)) in
+  backup_ok opens_partial s' = true -> exists w, cs_dir s' = DComplete w /\ restored_content garbage s' = w.
+Proof. exact crashed_fetch_never_restores_garbage. Qed.
+Print Assumptions C14_crashed_fetch_never_restores_garbage.
+
+(* an aborted fetch fails loudly (refused) and the next fetch, from whatever was left, succeeds *)
+Theorem C14_crashed_fetch_is_refused : forall opens_partial v k s,
+  (1 <= k <= 3)%nat -> backup_ok opens_partial (wrun s (firstn k (fetch_steps v))) = false.
+Proof. exact crashed_fetch_is_refused. Qed.
+Print Assumptions C14_crashed_fetch_is_refused.
+
+Theorem C14_fetch_retry_completes : forall opens_partial v s,
+  let s' := wrun s (fetch_steps v) in
+  cs_dir s' = DComplete v /\ cs_marked s' = false /\ backup_ok opens_partial s' = true.
+Proof. exact fetch_retry_completes. Qed.
+Print Assumptions C14_fetch_retry_completes.
+
+Theorem C14_backup_retry_completes : forall opens_partial v s,
+  let s' := wrun s (backup_steps v) in
+  cs_dir s' = DComplete v /\ cs_marked s' = false /\ backup_ok opens_partial s' = true.
+Proof. exact backup_retry_completes. Qed.
+Print Assumptions C14_backup_retry_completes.
+
+(* the code before /repo b3a9b47 (no marker): a half written directory the engine happens to open is
+   accepted and restored. Replayed on the Go code by the CB / CF crash cases (pebble and mem backups,
+   fetches on all engines restored other content). *)
+Theorem C14_unmarked_backup_refuted :
+  exists v k garbage, let s' := wrun {| cs_dir := DAbsent; cs_marked := false |} (firstn k (backup_steps_unmarked v)) in
+    backup_ok true s' = true /\ restored_content garbage s' <> v.
+Proof. exact unmarked_backup_refuted. Qed.
+Print Assumptions C14_unmarked_backup_refuted.
+
+Theorem C14_unmarked_fetch_refuted :
+  exists v k garbage, let s' := wrun {| cs_dir := DAbsent; cs_marked := false |} (firstn k (fetch_steps_unmarked v)) in
+    backup_ok true s' = true /\ restored_content garbage s' <> v.
+Proof. exact unmarked_fetch_refuted. Qed.
+Print Assumptions C14_unmarked_fetch_refuted.
+
+(* a restore killed at any moment: the reopened db holds all of the old content or all of the
+   checkpoint's (OpenRockDB finishes the interrupted restore) — and without the marker (before
+   /repo d2f1422) a mixture, which the engine refused to open *)
+Theorem C14_restore_crash_all_or_nothing : forall k,
+  open_after_crash (rrun {| rs_data := DOld; rs_marked := false |} (firstn k restore_steps)) <> DMixed.
+Proof. exact restore_crash_all_or_nothing. Qed.
+Print Assumptions C14_restore_crash_all_or_nothing.
+
+Theorem C14_restore_crash_unmarked_refuted :
+  exists k, open_after_crash (rrun {| rs_data := DOld; rs_marked := false |} (firstn k restore_steps_unmarked)) = DMixed.
+Proof. exact restore_crash_unmarked_refuted. Qed.
+Print Assumptions C14_restore_crash_unmarked_refuted.
+
+(* finishing an interrupted restore = running the file plan again on whatever is there: after k1
+   entries examined by the removal loop and (then) k2 checkpoint entries copied, the plan still
+   succeeds and ends with the checkpoint's content; the checkpoint is unharmed *)
+Theorem C14_restore_resumes_from_any_crash : forall fs cur ck k1 k2,
+  NoDup (dnames cur) -> NoDup (dnames ck) -> store_ok fs ->
+  (forall n j, In (n, j) ck -> is_log n = false -> is_regular fs j = true) ->
+  (forall n j, In (n, j) ck -> exists m, inode_meta (fs_inodes fs) j = Some m) ->
+  let '(fs1, d1) := crash_state fs cur ck k1 k2 in
+  exists fs' cur',
+    restore_plan fs1 d1 ck = (fs', cur', true) /\
+    (forall n, is_log n = false -> file_at fs' cur' n = file_at fs ck n) /\
+    (forall n, file_at fs' ck n = file_at fs ck n).
+Proof. exact restore_resumes_from_any_crash. Qed.
+Print Assumptions C14_restore_resumes_from_any_crash.
 
 (* ---------- (6) value level, for ALL histories ---------- *)
 
